@@ -244,8 +244,12 @@ def apply(world, op):
     return True
 
 
+LAST_APPLIED = []      # the operations of the last history that were applicable (lenient histories skip the others)
+
+
 def run_history(ops, checks=("c16", "c17"), lenient=False):
     w = World()
+    del LAST_APPLIED[:]
     try:
         for i, op in enumerate(ops):
             try:
@@ -256,6 +260,7 @@ def run_history(ops, checks=("c16", "c17"), lenient=False):
                 if lenient:
                     continue
                 return None, None     # op not applicable: history pruned
+            LAST_APPLIED.append(op)
             for c in checks:
                 msg = getattr(w, "check_" + c)()
                 if msg:
@@ -314,7 +319,7 @@ def search(max_len, checks=("c16", "c17"), budget=200000, seed=0, want=None, ran
                         continue
                     applicable += 1
                     if res != "ok" and (want is None or res == want):
-                        f = {"check": res, "history": [list(o) for o in hist], "detail": msg}
+                        f = {"check": res, "history": [list(o) for o in LAST_APPLIED] + [["run"]], "detail": msg}
                         if skip is not None and skip(f):
                             if skipped is not None and not skipped:
                                 skipped.append(f)
@@ -343,7 +348,7 @@ def search(max_len, checks=("c16", "c17"), budget=200000, seed=0, want=None, ran
                         continue
                     applicable += 1
                     if res != "ok" and (want is None or res == want):
-                        f = {"check": res, "history": [list(o) for o in hist], "detail": msg}
+                        f = {"check": res, "history": [list(o) for o in LAST_APPLIED] + [["run"]], "detail": msg}
                         if skip is not None and skip(f):
                             if skipped is not None and not skipped:
                                 skipped.append(f)
